@@ -63,7 +63,7 @@ Print K.
 """
 
 DEFECTS = ["undefined-token", "double-definition", "double-definition-verbatim", "same-value", "unknown-predef", "invalid-pattern", "no-production", "no-start", "handle-twice",
-           "rule-handle-twice", "rule-handle-twice-later", "unknown-predef-unused", "unknown-predef-plus-valid"]
+           "rule-handle-twice", "rule-handle-twice-later", "unknown-predef-unused", "unknown-predef-plus-valid", "directive-repeated"]
 
 
 def seed_defects(rng, text, which):
@@ -108,6 +108,10 @@ def seed_defects(rng, text, which):
             decls.append('@right <%s = %s "%s2" %s>;' % (n, n, n, n))
             decls.append('%s = "%sq"%s;' % (n, n, (' | "%s0"' % n) if lead else ""))
             decls.append("r%s = %s;" % (n, n))
+        elif d == "directive-repeated":
+            decls.append('@left "rr" "rs";')                 # the same directive twice: two levels with the same handles
+            decls.append('@left "rr" "rs";')
+            decls.append('rq = "rr" "rs";')
         elif d == "handle-twice":
             decls.append('@left "hh";')
             decls.append('@right "hh";')
